@@ -98,7 +98,13 @@ def roots(F):
         if f["kind"] not in ("Fn", "AssocFn"):
             continue
         im = F.impl_of(f)
-        if f.get("exported") or (im is not None and im["trait"]):
+        trait_root = False
+        if im is not None and im["trait"]:
+            head = im["self_head"].lstrip("&").replace("mut ", "")
+            adt = F.adts.get(head)
+            # trait methods are reachable by users only through exported types
+            trait_root = adt is None or adt["exported"]
+        if f.get("exported") or trait_root:
             if f.get("parent_kind") == "Trait":
                 continue  # trait method declarations (no body of their own unless provided)
             if F.body(f["path"]) is None:
